@@ -166,7 +166,7 @@ NewOp(c, srcs, kinds) ==
      blks |-> [i \in DOMAIN c.recv |-> pool[c.recv[i]].blk]]
 
 IsCbOp(name) == name \in CbOps
-IsCollectOp(name) == name \in {"try_from_iter", "from_iter", "try_boxed_from_iter", "boxed_from_iter"}
+IsCollectOp(name) == name \in {"try_from_iter", "from_iter", "try_boxed_from_iter", "boxed_from_iter", "builder_extend"}
 IsSerdeOp(name) == name \in {"deserialize"}
 
 \* c = [op, recv, byval, arg, elems, n, okind, truthful]
